@@ -15,6 +15,9 @@ CPP_KW = C_KW + ["class", "namespace", "template", "typename", "new", "delete", 
                  "nullptr", "explicit", "mutable", "and", "or", "not", "xor", "std", "wit"]
 
 
+ISOLATED = {"rust": ["self"]}
+
+
 def _world(names, lang, title):
     """one interface whose type, field, case, function and parameter names are the adversarial names"""
     ids = [n for n in names]
@@ -40,14 +43,22 @@ world w {{
 
 
 def adversarial_worlds(lang):
-    kws = {"rust": RUST_KW + RUST_PRELUDE + RUST_TEMPS, "c": C_KW, "cpp": CPP_KW}[lang]
+    groups = {"rust": [RUST_KW, RUST_PRELUDE, RUST_TEMPS], "c": [C_KW], "cpp": [CPP_KW]}[lang]
     out = []
-    # WIT identifiers are kebab-case words; every keyword is a valid word after `%`
-    valid = [k for k in kws if k.replace("-", "").isalnum() and not k[0].isdigit()]
-    for i in range(0, len(valid), 14):
-        chunk = valid[i:i + 14]
-        if len(chunk) >= 3:
-            out.append((f"kw{i}", _world(chunk, lang, "kw")))
+    for kws in groups:
+        # WIT identifiers are kebab-case words; every keyword is a valid word after `%`
+        valid = [k for k in dict.fromkeys(kws) if k.replace("-", "").isalnum() and not k[0].isdigit()]
+        # names with a listed finding of their own get a world of their own, so that the finding cannot hide what the other names do
+        for k in ISOLATED.get(lang, []):
+            if k in valid:
+                valid.remove(k)
+                out.append((k, _world([k, "plain-a", "plain-b"], lang, "kw")))
+        # worlds are named after their first name, so that a world keeps its identity when a list grows
+        for i in range(0, len(valid), 14):
+            chunk = valid[i:i + 14]
+            if len(chunk) < 3:
+                chunk = valid[-3:]
+            out.append((f"kw-{chunk[0]}", _world(chunk, lang, "kw")))
     # names that collide after case / separator folding
     out.append(("fold", """package t:fold;
 interface a-b { record foo-bar { x: u32 } f: func(a: foo-bar) -> u32; }
